@@ -772,3 +772,254 @@ Proof.
     destruct W as (j & _ & W2 & W3). destruct (i_results sc s I j _ W3) as (w & Hw & Hr). exists j, w. auto.
   - exact Rc.
 Qed.
+
+
+(* ================= liveness: progress under fair rounds ================= *)
+
+Lemma tid_eq_dec : forall a b : tid, {a = b} + {a <> b}.
+Proof. decide equality; apply Nat.eq_dec. Qed.
+
+Lemma step_cases : forall sc c t,
+  (act sc (fst c) t = None /\ step sc c t = c) \/
+  (exists e s', act sc (fst c) t = Some (e, s') /\ step sc c t = (s', e :: snd c)).
+Proof.
+  intros sc [s tr] t. unfold step. simpl. destruct (act sc s t) as [[e s']|]; [right; eauto | left; auto].
+Qed.
+
+(* A measure that no step increases and that the step of a designated helper thread decreases goes to zero in
+   as many fair rounds as its value. *)
+Section Progress.
+  Variables (sc : script) (P : cfg -> Prop) (m : cfg -> nat) (h : cfg -> tid).
+  Hypothesis P_step : forall c t, P c -> P (step sc c t).
+  Hypothesis m_mono : forall c t, P c -> m (step sc c t) <= m c.
+  Hypothesis m_prog : forall c, P c -> 0 < m c -> m (step sc c (h c)) < m c.
+  Hypothesis h_keep : forall c t, P c -> 0 < m c -> t <> h c -> m (step sc c t) = m c -> h (step sc c t) = h c.
+  Hypothesis h_fair : forall c seg, P c -> 0 < m c -> efair sc seg -> In (h c) seg.
+
+  Lemma P_run : forall seg c, P c -> P (run sc c seg).
+  Proof. induction seg as [|t l IH]; intros c Pc; [exact Pc|]. rewrite run_cons. apply IH. apply P_step. exact Pc. Qed.
+
+  Lemma run_mono : forall seg c, P c -> m (run sc c seg) <= m c.
+  Proof.
+    induction seg as [|t l IH]; intros c Pc; [apply le_n|]. rewrite run_cons.
+    specialize (IH (step sc c t) (P_step c t Pc)). pose proof (m_mono c t Pc). lia.
+  Qed.
+
+  Lemma round_decr : forall seg c, P c -> 0 < m c -> In (h c) seg -> m (run sc c seg) < m c.
+  Proof.
+    induction seg as [|t l IH]; intros c Pc Pos Hin; [destruct Hin|]. rewrite run_cons.
+    pose proof (run_mono l (step sc c t) (P_step c t Pc)) as M.
+    destruct (tid_eq_dec t (h c)) as [->|N].
+    - pose proof (m_prog c Pc Pos). lia.
+    - destruct Hin as [E|Hin]; [contradiction|].
+      pose proof (m_mono c t Pc) as M1.
+      destruct (Nat.eq_dec (m (step sc c t)) (m c)) as [E|NE]; [|lia].
+      rewrite <- E. apply IH; [apply P_step; exact Pc | lia |].
+      rewrite (h_keep c t Pc Pos N E). exact Hin.
+  Qed.
+
+  Lemma rounds_zero : forall n c c', erounds sc n c c' -> P c -> m c <= n -> P c' /\ m c' = 0.
+  Proof.
+    induction 1 as [c|n c seg c' F R IH]; intros Pc L; [split; [exact Pc|lia]|].
+    apply IH; [apply P_run; exact Pc|].
+    destruct (Nat.eq_dec (m c) 0) as [Z|NZ].
+    - pose proof (run_mono seg c Pc). lia.
+    - assert (Pos : 0 < m c) by lia. pose proof (round_decr seg c Pc Pos (h_fair c seg Pc Pos F)). lia.
+  Qed.
+End Progress.
+
+(* what a worker function returned stays recorded *)
+Lemma g_ret_act : forall sc s t e s' i r, SInv sc s -> act sc s t = Some (e, s') ->
+  g_ret (s_g s i) = Some r -> g_ret (s_g s' i) = Some r.
+Proof.
+  intros sc s t e s' j r I H G.
+  act_inv H; simpl; auto.
+  1: { gcase j i; [|exact G]. rewrite (sinv_unspawned sc s I i) in G; [discriminate G|]. rewrite Heqc. simpl. lia. }
+  all: gcase j i; [rewrite Heqg in G; simpl in *; try exact G; try discriminate G | exact G].
+  exfalso. assert (0 < s_cnt s); [|lia]. apply (sinv_cnt_pos sc s I i); rewrite Heqg; [discriminate|reflexivity].
+Qed.
+
+Lemma g_ret_step : forall sc c t i r, Inv sc c -> g_ret (s_g (fst c) i) = Some r -> g_ret (s_g (fst (step sc c t)) i) = Some r.
+Proof.
+  intros sc c t i r [I _] G. destruct (step_cases sc c t) as [[_ ->]|(e & s' & A & ->)]; [exact G|].
+  simpl. eapply g_ret_act; eauto.
+Qed.
+
+(* ---------- 2c. a failed worker function leads to cancellation within three fair rounds ---------- *)
+
+Definition brank (p : gpc) : nat := match p with GB1 _ => 2 | GB2 _ => 1 | _ => 0 end.
+
+Definition crank (s : st) : nat :=
+  match s_ctx s with
+  | Some _ => 0
+  | None => match s_once s with
+            | ONew => 3
+            | ORun j => brank (s_g s j)
+            | ODone => 0
+            end
+  end.
+
+Definition chelp (i : nat) (s : st) : tid := match s_once s with ORun j => TG j | _ => TG i end.
+
+Lemma crank_upd : forall sc s s' i p, SInv sc s -> s_ctx s' = s_ctx s -> s_once s' = s_once s -> s_g s' = gupd (s_g s) i p ->
+  (in_body (s_g s i) = true -> brank p <= brank (s_g s i)) -> crank s' <= crank s.
+Proof.
+  intros sc s s' i p I C O G B. unfold crank. rewrite C, O, G. destruct (s_ctx s); [lia|].
+  destruct (s_once s) as [|j|] eqn:Oj; try lia. gcase j i; [|lia]. apply B. apply (i_once_body sc s I i Oj).
+Qed.
+
+Lemma crank_cancelled : forall s, s_ctx s <> None -> crank s = 0.
+Proof. intros s C. unfold crank. destruct (s_ctx s); [reflexivity|contradiction]. Qed.
+
+Lemma crank_mono : forall sc s t e s', SInv sc s -> act sc s t = Some (e, s') -> crank s' <= crank s.
+Proof.
+  intros sc s t e s' I H.
+  act_inv H.
+  all: try (rewrite (crank_cancelled (mkSt _ _ _ _ _ _)); [lia | simpl; auto using do_cancel_some; discriminate]).
+  all: try (eapply (crank_upd sc s _ i); [exact I|reflexivity|reflexivity|reflexivity|]; rewrite ?Heqg; simpl; try discriminate; try lia).
+  all: unfold crank; simpl; rewrite ?Heqo, ?gupd_same; destruct (s_ctx s); simpl; lia.
+Qed.
+
+Lemma crank_zero : forall sc s, SInv sc s -> crank s = 0 -> (exists i e, g_ret (s_g s i) = Some (Some e)) -> s_ctx s <> None.
+Proof.
+  intros sc s I Z (i & e & G) C. unfold crank in Z. rewrite C in Z. destruct (s_once s) as [|j|] eqn:O; try discriminate Z.
+  - pose proof (i_err_run sc s I j O) as R. pose proof (i_once_body sc s I j O) as B.
+    destruct (s_g s j); try discriminate; destruct R; contradiction.
+  - destruct (i_once_done sc s I O). contradiction.
+Qed.
+
+(* with the Once still new, a goroutine whose worker function failed stands right before errOnce.Do *)
+Lemma failed_at_once : forall sc s i e, SInv sc s -> s_once s = ONew -> g_ret (s_g s i) = Some (Some e) -> s_g s i = GOnce e.
+Proof.
+  intros sc s i e I O G. pose proof (i_body_once sc s I i) as B. destruct (i_once_new sc s I O) as [_ Q]. specialize (Q i).
+  destruct (s_g s i); simpl in *; try discriminate; try (rewrite B in O by reflexivity; discriminate O).
+  - congruence.
+  - destruct r; [discriminate Q | discriminate G].
+  - destruct r; [discriminate Q | discriminate G].
+Qed.
+
+Lemma crank_prog : forall sc s i e, SInv sc s -> g_ret (s_g s i) = Some (Some e) -> 0 < crank s ->
+  exists ev s', act sc s (chelp i s) = Some (ev, s') /\ crank s' < crank s.
+Proof.
+  intros sc s i e I G Pos. unfold crank in Pos. unfold chelp, crank.
+  destruct (s_ctx s) eqn:C; [lia|]. destruct (s_once s) as [|j|] eqn:O; [| |lia].
+  - unfold act. rewrite (failed_at_once sc s i e I O G), O.
+    eexists; eexists; split; [reflexivity|]. simpl. rewrite C, gupd_same. simpl. lia.
+  - unfold act. destruct (s_g s j) eqn:Gj; simpl in Pos; try lia.
+    + eexists; eexists; split; [reflexivity|]. simpl. rewrite C, O, gupd_same. simpl. lia.
+    + eexists; eexists; split; [reflexivity|]. simpl. rewrite C. simpl. lia.
+Qed.
+
+Lemma chelp_keep : forall sc s t ev s' i, SInv sc s -> act sc s t = Some (ev, s') -> 0 < crank s ->
+  t <> chelp i s -> crank s' = crank s -> chelp i s' = chelp i s.
+Proof.
+  intros sc s t ev s' i0 I H Pos N E. unfold chelp in *.
+  act_inv H; simpl; auto.
+  - exfalso. unfold crank in Pos, E. simpl in E. rewrite Heqo in Pos, E. rewrite gupd_same in E.
+    destruct (s_ctx s); simpl in *; lia.
+  - exfalso. pose proof (i_body_once sc s I i) as B. rewrite Heqg in B. rewrite (B eq_refl) in N. apply N. reflexivity.
+Qed.
+
+Section CancelRounds.
+  Variables (sc : script) (i e : nat).
+
+  Definition CP (c : cfg) : Prop := Inv sc c /\ g_ret (s_g (fst c) i) = Some (Some e).
+
+  Lemma CP_step : forall c t, CP c -> CP (step sc c t).
+  Proof. intros c t [HI G]. split; [apply inv_step; exact HI | apply g_ret_step; assumption]. Qed.
+
+  Lemma CP_mono : forall c t, CP c -> crank (fst (step sc c t)) <= crank (fst c).
+  Proof.
+    intros c t [[I _] _]. destruct (step_cases sc c t) as [[_ ->]|(ev & s' & A & ->)]; [lia|].
+    simpl. eapply crank_mono; eauto.
+  Qed.
+
+  Lemma CP_prog : forall c, CP c -> 0 < crank (fst c) -> crank (fst (step sc c (chelp i (fst c)))) < crank (fst c).
+  Proof.
+    intros [s tr] [[I _] G] Pos. simpl in *. destruct (crank_prog sc s i e I G Pos) as (ev & s' & A & L).
+    rewrite (step_some _ _ _ _ _ _ A). exact L.
+  Qed.
+
+  Lemma CP_keep : forall c t, CP c -> 0 < crank (fst c) -> t <> chelp i (fst c) ->
+    crank (fst (step sc c t)) = crank (fst c) -> chelp i (fst (step sc c t)) = chelp i (fst c).
+  Proof.
+    intros c t [[I _] _] Pos N E. destruct (step_cases sc c t) as [[_ ->]|(ev & s' & A & R)]; [reflexivity|].
+    rewrite R in *. simpl in *. eapply chelp_keep; eauto.
+  Qed.
+
+  Lemma CP_fair : forall c seg, CP c -> 0 < crank (fst c) -> efair sc seg -> In (chelp i (fst c)) seg.
+  Proof.
+    intros [s tr] seg [[I _] G] Pos [_ F]. simpl in *. unfold chelp.
+    destruct (s_once s) as [|j|] eqn:O; apply F.
+    - apply (sinv_started_lt sc s I). intros N. rewrite N in G. discriminate G.
+    - apply (sinv_started_lt sc s I). pose proof (i_once_body sc s I j O) as B. intros N. rewrite N in B. discriminate B.
+    - apply (sinv_started_lt sc s I). intros N. rewrite N in G. discriminate G.
+  Qed.
+
+  Lemma cancel_within_three_rounds : forall c c', CP c -> erounds sc 3 c c' -> s_ctx (fst c') <> None.
+  Proof.
+    intros c c' Pc R.
+    destruct (rounds_zero sc CP (fun c => crank (fst c)) (fun c => chelp i (fst c)) CP_step CP_mono CP_prog CP_keep CP_fair
+                3 c c' R Pc) as [[[I' _] G'] Z].
+    - unfold crank. destruct (s_ctx (fst c)); [lia|]. destruct (s_once (fst c)); try lia. unfold brank. destruct (s_g (fst c) i0); lia.
+    - eapply crank_zero; eauto.
+  Qed.
+End CancelRounds.
+
+(* 2c. from any state of any execution in which some worker function has returned a non-nil error, three fair rounds
+   (whatever else happens in them) leave the group context cancelled *)
+Theorem cancel_fair : forall sc sched i e c',
+  g_ret (s_g (fst (exec sc sched)) i) = Some (Some e) -> erounds sc 3 (exec sc sched) c' -> s_ctx (fst c') <> None.
+Proof.
+  intros sc sched i e c' G R. eapply (cancel_within_three_rounds sc i e); eauto. split; [apply inv_exec|exact G].
+Qed.
+
+(* ---------- 2d. the winner of the Once cancels the context with its next two steps ---------- *)
+
+Lemma body_frame : forall sc s t ev s' j, SInv sc s -> act sc s t = Some (ev, s') -> t <> TG j ->
+  in_body (s_g s j) = true -> s_g s' j = s_g s j.
+Proof.
+  intros sc s t ev s' j I H N B.
+  act_inv H; simpl; auto.
+  1: { gcase j i; [|reflexivity]. rewrite (sinv_unspawned sc s I i) in B; [discriminate B|]. rewrite Heqc. simpl. lia. }
+  all: gcase j i; try reflexivity; try (exfalso; apply N; reflexivity).
+  rewrite Heqg in B. discriminate B.
+Qed.
+
+Lemma two_steps_aux : forall sc j e seg c, Inv sc c ->
+  (s_g (fst c) j = GB1 e /\ 2 <= count_occ tid_eq_dec seg (TG j)) \/
+  (s_g (fst c) j = GB2 e /\ 1 <= count_occ tid_eq_dec seg (TG j)) \/
+  (s_ctx (fst c) = Some (CErr e) \/ s_ctx (fst c) = Some CParent) ->
+  s_ctx (fst (run sc c seg)) = Some (CErr e) \/ s_ctx (fst (run sc c seg)) = Some CParent.
+Proof.
+  induction seg as [|t l IH]; intros c HI D.
+  - simpl in D. destruct D as [[_ L]|[[_ L]|D]]; [lia|lia|exact D].
+  - rewrite run_cons. apply IH; [apply inv_step; exact HI|]. destruct HI as [I _].
+    destruct D as [[G L]|[[G L]|D]].
+    + destruct (tid_eq_dec t (TG j)) as [->|N].
+      * right; left. rewrite count_occ_cons_eq in L by reflexivity. split; [|lia].
+        destruct c as [s tr]. simpl in *. erewrite step_some; [|unfold act; rewrite G; reflexivity]. simpl. apply gupd_same.
+      * left. rewrite count_occ_cons_neq in L by assumption. split; [|exact L].
+        destruct (step_cases sc c t) as [[_ ->]|(ev & s' & A & ->)]; [exact G|]. simpl. rewrite <- G.
+        eapply body_frame; eauto. rewrite G. reflexivity.
+    + destruct (tid_eq_dec t (TG j)) as [->|N].
+      * right; right. destruct c as [s tr]. simpl in *. erewrite step_some; [|unfold act; rewrite G; reflexivity]. simpl.
+        pose proof (i_body_once sc s I j) as B. rewrite G in B. pose proof (i_err_run sc s I j (B eq_refl)) as R. rewrite G in R.
+        pose proof (i_cause sc s I) as K. rewrite R. destruct (s_ctx s) as [[x| |]|] eqn:C; simpl; auto.
+        -- left. congruence.
+        -- destruct K as [P _]. exfalso. destruct (sinv_passed_quiet sc s I P j) as [Q|Q]; rewrite G in Q; discriminate Q.
+      * right; left. rewrite count_occ_cons_neq in L by assumption. split; [|exact L].
+        destruct (step_cases sc c t) as [[_ ->]|(ev & s' & A & ->)]; [exact G|]. simpl. rewrite <- G.
+        eapply body_frame; eauto. rewrite G. reflexivity.
+    + right; right. destruct D as [D|D]; [left|right]; apply ctx_stable_step; exact D.
+Qed.
+
+(* once a goroutine has entered the Once body (so its worker function was the first, in Once order, to fail), the
+   context is cancelled as soon as THAT goroutine has taken two more steps - it can never be blocked there -, with
+   the error as cause unless the parent was cancelled first *)
+Theorem cancel_two_steps : forall sc sched j e seg,
+  s_g (fst (exec sc sched)) j = GB1 e -> 2 <= count_occ tid_eq_dec seg (TG j) ->
+  s_ctx (fst (exec sc (sched ++ seg))) = Some (CErr e) \/ s_ctx (fst (exec sc (sched ++ seg))) = Some CParent.
+Proof.
+  intros sc sched j e seg G L. rewrite exec_app. apply (two_steps_aux sc j e); [apply inv_exec|]. left. auto.
+Qed.
